@@ -261,6 +261,33 @@ fn const_json<'tcx>(tcx: TyCtxt<'tcx>, owner: DefId, c: &mir::ConstOperand<'tcx>
             ConstValue::Scalar(rustc_middle::mir::interpret::Scalar::Ptr(ptr, _)) => {
                 // reference to a (promoted) constant: read the pointee if it is a primitive integer/bool
                 if let ty::Ref(_, inner, _) = ty.kind() {
+                    // reference to a fieldless enum constant (e.g. `&Sign::Plus`): read the tag
+                    if let ty::Adt(adt, _) = inner.kind() {
+                        if adt.is_enum() && adt.variants().iter().all(|v| v.fields.is_empty()) {
+                            let env2 = TypingEnv::fully_monomorphized();
+                            if let Ok(lay) = tcx.layout_of(env2.as_query_input(*inner)) {
+                                let (prov, off) = ptr.into_raw_parts();
+                                if let Some(rustc_middle::mir::interpret::GlobalAlloc::Memory(a)) = tcx.try_get_global_alloc(prov.alloc_id()) {
+                                    let a = a.inner();
+                                    let start = off.bytes() as usize;
+                                    let n = lay.size.bytes() as usize;
+                                    if n > 0 && start + n <= a.len() {
+                                        let bytes = a.inspect_with_uninit_and_ptr_outside_interpreter(start..start + n);
+                                        let mut bits: u128 = 0;
+                                        for (i, b) in bytes.iter().enumerate() {
+                                            bits |= (*b as u128) << (8 * i);
+                                        }
+                                        for (vidx, d) in adt.discriminants(tcx) {
+                                            let mask: u128 = if n >= 16 { u128::MAX } else { (1u128 << (8 * n)) - 1 };
+                                            if d.val & mask == bits {
+                                                o.put("deref_enum", J::obj().set("adt", J::s(tcx.def_path_str(adt.did()))).set("variant", J::s(adt.variant(vidx).name.to_string())));
+                                            }
+                                        }
+                                    }
+                                }
+                            }
+                        }
+                    }
                     if matches!(inner.kind(), ty::Int(_) | ty::Uint(_) | ty::Bool) {
                         let env2 = TypingEnv::fully_monomorphized();
                         if let Ok(lay) = tcx.layout_of(env2.as_query_input(*inner)) {
